@@ -5,6 +5,33 @@
 
 package tls
 
+import (
+	_ "embed"
+	"regexp"
+	"strings"
+)
+
+//go:embed u_parrots.go
+var verifParrotsSrc string
+
+// VerifC09WeightRefs lists, in source order, the id.Weights.X fields the body of generateRandomizedSpec
+// mentions, and counts the FlipWeightedCoin calls in that body (the harness compares both with the
+// coin table of the Coq model, so a new coin without a table row is noticed).
+func VerifC09WeightRefs() (fields []string, flipCalls int) {
+	i := strings.Index(verifParrotsSrc, "\nfunc generateRandomizedSpec(")
+	if i < 0 {
+		return nil, -1
+	}
+	body := verifParrotsSrc[i+1:]
+	if j := strings.Index(body, "\nfunc "); j >= 0 {
+		body = body[:j]
+	}
+	for _, m := range regexp.MustCompile(`id\.Weights\.(\w+)`).FindAllStringSubmatch(body, -1) {
+		fields = append(fields, m[1])
+	}
+	return fields, strings.Count(body, "FlipWeightedCoin(")
+}
+
 // VerifGenerateRandomizedSpec calls the unexported generateRandomizedSpec with
 // an explicit ClientHelloID (client string, seed, weights), server name and
 // NextProtos. weights == nil exercises the DefaultWeights fallback.
